@@ -50,6 +50,7 @@ theorem Node.dSize_eq (n : Node) (i : Nat) : n.dSize i = n.dPtr (i + 1) - n.dPtr
 /-! ## what `valid` guarantees -/
 
 structure Node.Facts (n : Node) : Prop where
+  magic : n.rd 0 = 0x72 ∧ n.rd 1 = 0xC3 ∧ n.rd 2 = 0x63
   arity_pos : 0 < n.arity
   arity_end : n.rd 3 = n.rd (nodeSize n.arity - 1)
   sorted : ∀ i, i < n.arity → n.dPtr i ≤ n.dPtr (i + 1)
@@ -64,8 +65,8 @@ theorem Node.facts_of_valid (n : Node) (h : n.valid = true) : n.Facts := by
   unfold Node.valid at h
   simp only [Bool.and_eq_true, List.all_eq_true, List.any_eq_true, List.mem_range,
     bne_iff_ne, beq_iff_eq, ne_eq] at h
-  obtain ⟨⟨⟨⟨⟨⟨⟨⟨⟨⟨⟨⟨_, _⟩, _⟩, ha⟩, hend⟩, hres⟩, hany⟩, _⟩, hd⟩, hc⟩, hv⟩, _⟩, hcodec⟩ := h
-  refine ⟨by omega, hend, ?_, ?_, ?_, ?_, ?_, hv, hcodec⟩
+  obtain ⟨⟨⟨⟨⟨⟨⟨⟨⟨⟨⟨⟨m0, m1⟩, m2⟩, ha⟩, hend⟩, hres⟩, hany⟩, _⟩, hd⟩, hc⟩, hv⟩, _⟩, hcodec⟩ := h
+  refine ⟨⟨m0, m1, m2⟩, by omega, hend, ?_, ?_, ?_, ?_, ?_, hv, hcodec⟩
   · intro i hi
     have := hd i hi
     simp only [Node.dPtrOk, Bool.and_eq_true, decide_eq_true_eq] at this
